@@ -53,6 +53,8 @@ pub struct Compiler {
     pub scope_depth: usize,
     pub next_register: u8,
     pub has_no_gc: bool,
+    // a relative jump did not fit its 16-bit operand (checked when the function is finished)
+    pub jump_out_of_range: bool,
     pub heap: Heap,
     pub(crate) register_pool: [bool; 256],
     pub globals: HashMap<String, bool>, // name -> mutable
